@@ -1146,9 +1146,9 @@ def random_life_ops(rng, machine, n):
             name = rng.choice(["new_empty", "new_ev", "new_a", "new_b", "new_c", "new_i", "new_copy", "new_move", "assign_copy", "assign_move",
                                "assign_a", "assign_b", "assign_c", "assign_i", "assign_ev", "become", "visit", "destroy", "new_a", "assign_b",
                                "new_sub_a", "new_sub_b", "new_sub_empty", "assign_sub_a", "assign_sub_b", "assign_sub_empty",
-                               "swap_a", "take_a"])
+                               "swap_a", "take_a", "new_t", "assign_t", "assign_t", "assign_own"])
             op = {"op": name, "o": o}
-            if name in ("new_a", "new_b", "new_c", "assign_a", "assign_b", "assign_c"):
+            if name in ("new_a", "new_b", "new_c", "new_t", "assign_a", "assign_b", "assign_c", "assign_t"):
                 op.update({"val": x, "throw": t})
             elif name in ("new_i", "assign_i", "new_sub_a", "new_sub_b", "assign_sub_a", "assign_sub_b", "swap_a", "take_a"):
                 op["val"] = x
@@ -1171,7 +1171,7 @@ def random_life_ops(rng, machine, n):
                 op["p"] = p
         else:
             names = ["new_empty", "new_val", "new_rval", "new_copy", "new_move", "assign_copy", "assign_move", "assign_val",
-                     "assign_rval", "clear", "take", "destroy", "new_val", "assign_val"]
+                     "assign_rval", "clear", "take", "destroy", "new_val", "assign_val", "assign_own"]
             if machine == "result_void":
                 names = ["new_empty", "new_copy", "new_move", "assign_copy", "assign_move", "clear", "destroy",
                          "new_err", "new_err", "assign_err", "assign_err"]
@@ -1635,6 +1635,11 @@ def check_C14(run):
                 if cn == "EchoArr":
                     vs = [{"m": [{"n": [[(7 * i + j) % 256] for j in range(3)]}]} for i in range(4)]
                 argvals[cn] = vs
+        if "Concat" in argvals:
+            # the handler of Concat, given a first argument "nest:...", has the same method dispatched once more on this
+            # thread (another connection) while it is running: its own arguments must come through untouched
+            sb = lambda txt: {"cw": 1, "b": [ord(ch) for ch in txt]}
+            argvals["Concat"] += [{"m": [sb("nest:outer-key-%d" % j), sb("outer-value-" + "v" * (7 * j))]} for j in range(4)]
         names = list(argvals)
         # (1) every method with every generated argument tuple, in sequences of 1..4 calls on one connection
         pool = [(cn, v) for cn in names for v in argvals[cn]]
